@@ -6,14 +6,24 @@ from pyasn1.codec.cer import encoder as cer_encoder
 from pyasn1.codec.der import decoder as der_decoder
 from pyasn1.codec.der import encoder as der_encoder
 
+from pyasn1 import error
+
 from props.common import *
+from vfw import x690ref as R
 
 BOUNDS = ("constructed schemas of the catalogue (and leaves for the decode/clone/read routes), presence flags, lengths, CHOICE alternatives and element counts symbolic, scalar contents fixed (the read-only operations print them); second construction history chosen by a "
           "symbolic route: members assigned in reverse order / SET OF members inserted in a rotated order (rotation symbolic), every absent DEFAULT member assigned explicitly "
-          "to its default, decoded from the indefinite chunked BER form, decoded from DER, decoded from CER, clone(cloneValueFlag=True), every container filled by position in descending order (and that followed by a clone); a symbolic selection of read-only "
+          "to its default, decoded from the indefinite chunked BER form, decoded from DER, decoded from CER, clone(cloneValueFlag=True), another value of the same type sent through the DER/CER encoders first, every container filled by position in descending order (and that followed by a clone); a symbolic selection of read-only "
           "operations (quick: none / each single one / all; thorough: every subset of the 8) executed before encoding (DER encode, CER encode, prettyPrint, str, iteration, ==, keys/values/items, getComponentByPosition(i) for every i with "
           "instantiate=False, isValue)")
 OUTSIDE = "histories mixing more than one route; containers without a declared component type"
+
+
+def _known_der_mismatch(sid, slots):
+    """Regions where DER output differs from the reference for reasons recorded as known findings of C03 (not C04's subject)."""
+    from vfw.findings_lib import empty_optional
+
+    return empty_optional(sid, dict(slots, sid=sid))
 
 
 def build_alt(t, av, rot, explicit_defaults):
@@ -113,14 +123,40 @@ def _reads(v, t, mask):
 MASKS = (0, 1, 2, 4, 8, 16, 32, 64, 128, 255, 3, 192)
 
 
-def history(sid, route, rot, mi, **slots):
+def _sibling_slots(e, slots):
+    """Another value of the same type: flags flipped, alternative/count selectors moved on."""
+    out = dict(slots)
+    for k, spec in e.params.items():
+        if k not in out:
+            continue
+        if spec[0] == "bool":
+            out[k] = not out[k]
+        elif k in ("w", "k", "k2") and spec[0] == "int":
+            out[k] = spec[1] + (out[k] - spec[1] + 1) % (spec[2] - spec[1] + 1)
+    return out
+
+
+def history(sid, route, rot, mi, interfere=False, **slots):
     mask = MASKS[mi] if mi < len(MASKS) else mi - len(MASKS)
     e = by_id(sid)
     t = e.t
     av = e.mk(**slots)
+    if interfere:
+        # another value of the same type (same type object) goes through the DER and CER encoders first: what the encoders did for it
+        # must not influence the bytes of this value
+        other = build(t, e.mk(**_sibling_slots(e, slots)))
+        try:
+            der_encoder.encode(other)
+            cer_encoder.encode(other)
+        except error.PyAsn1Error:
+            pass
     v1 = build(t, av)
     d1 = der_encoder.encode(v1)
     c1 = cer_encoder.encode(v1)
+    if interfere:
+        fresh_d = bytes(R.der(t, av))
+        if d1 != fresh_d and not _known_der_mismatch(sid, slots):
+            return "DER bytes of a value depend on which other value of the type was encoded before"
     spec = mk_type(t)
     if route == 0:
         v2 = build_alt(t, av, rot, False)
@@ -168,8 +204,9 @@ for e in all_entries():
             sh["rot"] = C(0)
         if r != 6:
             sh["mi"] = I(8, 9)  # one read (getComponentByPosition sweep) or all of them; the full selection runs on route 6
+            sh["interfere"] = C(False)  # another value of the type encoded first: on the direct route only
         shards.append(sh)
-    OBLIGATIONS.append(entry_obl("history", history, e, extra={"route": I(0, 8), "rot": I(0, 2), "mi": I(0, len(MASKS) - 1)}, extra_thorough={"mi": I(0, len(MASKS) + 255)},
+    OBLIGATIONS.append(entry_obl("history", history, e, extra={"route": I(0, 8), "rot": I(0, 2), "mi": I(0, len(MASKS) - 1), "interfere": B}, extra_thorough={"mi": I(0, len(MASKS) + 255)},
                                  narrow=True, budget=120, thorough_budget=400, extra_shards=shards, tiers=("quick", "thorough") if quick else ("thorough",)))
 
 
